@@ -399,8 +399,12 @@ def line_batch(case):
 def judge_batch(case, im, mo):
     if "raise" in im:
         if "fail" not in mo:
-            # raising is an accepted way out of a clash; what may not happen is an instance bundle over nested bundles being accepted
-            yield ("corr", f"refused although fresh names exist: {im['raise']}")
+            # raising is an accepted way out of a clash; near the length limit another way of choosing names may have to raise where
+            # the model's still finds one — only far from the limit is a refusal a disagreement
+            if len(case["base"]) < 400:
+                yield ("corr", f"refused although fresh names exist: {im['raise']}")
+            else:
+                INFO["refused_near_the_length_limit_where_the_model_finds_a_name"] = INFO.get("refused_near_the_length_limit_where_the_model_finds_a_name", 0) + 1
         return
     names = im["names"]
     if not im["designer_kept"]:
@@ -410,12 +414,17 @@ def judge_batch(case, im, mo):
     nbatch = len(case["parts"]) + (len(case["sub"]["members"]) if case["sub"] else 0)
     if len(names) != nbatch:
         yield ("pred", f"{nbatch} things to name, {len(names)} new names in the module: {names}")
-    if "fail" in mo:
-        yield ("corr", f"the model finds no fresh name, the implementation does: {names}")
-    elif names != mo["names"]:
-        yield ("corr", f"invented names {names} vs model {mo['names']}")
+    # Which fresh name is chosen is the code's business ("a clash is resolved by choosing a fresh name or by raising"): what
+    # `inventAll_spec` proves of the model's choice — distinct from every name in the module and from each other, the namespace
+    # afterwards the old one plus exactly those names — has been demanded of the implementation's choice above. Agreement with the
+    # model's very names (the underscore-appending `flatname`) is recorded, not demanded.
+    if "fail" in mo or names != mo["names"]:
+        INFO["batches_named_otherwise_than_the_model"] += 1
+    else:
+        INFO["batches_named_as_the_model"] += 1
 
 
+INFO = {"batches_named_otherwise_than_the_model": 0, "batches_named_as_the_model": 0}
 SB = common.Stream("batch_names", impl_batch, line_batch, judge_batch, chunk=16)
 
 
@@ -498,6 +507,7 @@ def run(ctx):
     rep.extra["stats"] = stats
     # the model's batch naming (inventAll, theorem inventAll_spec) against the names the passes really choose
     SB.run(ctx, [gen_batch(rng) for _ in range(300 if ctx.quick else 6000)])
+    rep.extra["batch_names_vs_model"] = dict(INFO)
     if cases:
         rep.sample({"renamed_modules": [[m["name"], [s["n"] for s in m["sigs"]], [i["n"] for i in m["insts"]]] for m in cases[0]["design"]["modules"]]})
 
